@@ -99,6 +99,12 @@ EXPRESSION_PATTERN = re.compile(
     r"^[A-Za-z_][A-Za-z0-9_.\-]*(?<!-)([" + _UNICODE_OPS + r"][A-Za-z_][A-Za-z0-9_.\-]*(?<!-))+\Z"
 )
 
+# Reserved words are lexed as literals/operators wherever a token can start - at the start of
+# the value or right after an operator - whenever a non-word character follows them
+# (\btrue\b matches in "true.x", "null-a", "A\u2192vs"). Such values must be quoted even though
+# they look like identifiers or expressions.
+_RESERVED_TOKEN_PATTERN = re.compile(r"(?:^|[" + _UNICODE_OPS + r"])(?:true|false|null|vs)(?:[^A-Za-z0-9_]|\Z)")
+
 
 def _sort_children_by_key(children: list[Any]) -> list[Any]:
     """Sort AST children by key for key_sorting option.
@@ -141,6 +147,10 @@ def needs_quotes(value: Any) -> bool:
     # Reserved words need quotes to avoid becoming literals or operators
     # This includes boolean/null literals and operator keywords
     if value in ("true", "false", "null", "vs"):
+        return True
+
+    # ... also when they merely lead the value or an expression segment (true.x, A\u2192null)
+    if _RESERVED_TOKEN_PATTERN.search(value):
         return True
 
     # Issue #181: Variables ($VAR, $1:name) don't need quotes
